@@ -22,6 +22,7 @@ package ro
 //@   props C11 C13 C07
 //@   binds mu getOrCreateSubject refCount config source
 //@   calls AddUnsubscribable NewObserverWithContext NewSubscriber ShareWithConfig$1$3$1 StoreInt32 SubscribeWithContext
+//@   params subscriberCtx destination
 //@   panicforks
 //@   maypanic
 //@   nolockleak
@@ -40,6 +41,7 @@ package ro
 //@   props C11 C14
 //@   binds currentSubject currentSourceSubscription subject
 //@   calls Unsubscribe
+//@   params currentSubject currentSourceSubscription
 //@   holding mu
 //@   track currentSourceSubscription.*
 //@   ensures [releases-the-upstream-of-that-generation|C11] trace(currentSourceSubscription.Unsubscribe())
@@ -52,6 +54,7 @@ package ro
 //@   props C11
 //@   binds ctx err config mu currentSubject currentSourceSubscription hasBeenResetOnError
 //@   calls ErrorWithContext Lock StoreInt32 Unlock fn:reset
+//@   params ctx err
 //@   track currentSubject.* currentSourceSubscription.*
 //@   ensures [resets-before-telling-the-subscribers|C11] config.ResetOnError ==> trace(currentSourceSubscription.Unsubscribe(), currentSubject.ErrorWithContext(ctx, err)) && heldat(mu, currentSourceSubscription.Unsubscribe) && notheldat(mu, currentSubject.ErrorWithContext)
 //@   ensures [marks-the-kept-generation-before-telling-the-subscribers|C11] !config.ResetOnError ==> trace(currentSubject.ErrorWithContext(ctx, err)) && atevent(currentSubject.ErrorWithContext, hasBeenResetOnError) == 1
@@ -62,6 +65,7 @@ package ro
 //@   props C11
 //@   binds ctx config mu currentSubject currentSourceSubscription hasBeenResetOnCompletion
 //@   calls CompleteWithContext Lock StoreInt32 Unlock fn:reset
+//@   params ctx
 //@   track currentSubject.* currentSourceSubscription.*
 //@   ensures [resets-before-telling-the-subscribers|C11] config.ResetOnComplete ==> trace(currentSourceSubscription.Unsubscribe(), currentSubject.CompleteWithContext(ctx)) && heldat(mu, currentSourceSubscription.Unsubscribe) && notheldat(mu, currentSubject.CompleteWithContext)
 //@   ensures [marks-the-kept-generation-before-telling-the-subscribers|C11] !config.ResetOnComplete ==> trace(currentSubject.CompleteWithContext(ctx)) && atevent(currentSubject.CompleteWithContext, hasBeenResetOnCompletion) == 1
@@ -72,6 +76,7 @@ package ro
 //@   props C11 C13 C03 C14
 //@   binds sub mu refCount config hasBeenResetOnError hasBeenResetOnCompletion currentSourceSubscription
 //@   calls LoadInt32 Lock Unlock Unsubscribe fn:reset
+//@   params -
 //@   inline ShareWithConfig$1$2
 //@   track sub.* currentSourceSubscription.*
 //@   ensures [leaves-the-subject|C11,C03] called(sub.Unsubscribe)
@@ -108,6 +113,7 @@ package ro
 //@   props C11 C13
 //@   binds s
 //@   calls Lock Unlock fn:t10
+//@   params -
 //@   track callfn.ANY config.Connector
 //@   ensures [keeps-the-subject-unless-reset-on-disconnect|C11] !s.config.ResetOnDisconnect ==> trace() && count(lock.mu) == 0
 //@   ensures [reset-on-disconnect-installs-a-fresh-subject-under-the-lock|C11,C13] s.config.ResetOnDisconnect ==> count(lock.mu) == 1
@@ -135,6 +141,7 @@ package ro
 //@   props C11
 //@   binds bufferSize
 //@   calls NewReplaySubject
+//@   params -
 //@   track call.NewReplaySubject
 //@   ensures [connector-is-a-replay-subject-of-the-configured-size|C11] trace(call.NewReplaySubject(bufferSize))
 
@@ -142,6 +149,7 @@ package ro
 //@   props C11
 //@   binds bufferSize
 //@   calls NewReplaySubject
+//@   params -
 //@   track call.NewReplaySubject
 //@   ensures [connector-is-a-replay-subject-of-the-configured-size|C11] trace(call.NewReplaySubject(bufferSize))
 
